@@ -24,7 +24,7 @@ theorem cont_ifR {srt : Fun.IfSort} {a : BitVec 64} {t e : Fun.Term} {env : Fun.
     (haT : AgreeOn (tfvStmt T []) ρ0 ρ) (haE : AgreeOn (tfvStmt E []) ρ0 ρ)
     (hl1 : Core.Env.lookup ρ z1 = .ok (.int a)) (hl2 : Core.Env.lookup ρ z2 = .ok V)
     (hv : VRel (GP p) q n v V) :
-    Chunk p q (R p q) true (.ret v (.ifR srt a t e env :: k))
+    Chunk p q (R p q) true true μ (.ret v (.ifR srt a t e env :: k))
       ⟨.ifc (compileSort srt) (.var .prd z1 τ1) (.var .prd z2 τ2) T E, ρ, out, n⟩ := by
   cases hv with
   | int b =>
@@ -32,7 +32,7 @@ theorem cont_ifR {srt : Fun.IfSort} {a : BitVec 64} {t e : Fun.Term} {env : Fun.
       (out := out) (n := n) hl1 hl2 .prd .prd
     rw [compare_compile] at hs
     refine .inr ⟨0, _, .eval (if Fun.compare srt a b then t else e) env k, [], 1, _, .refl _,
-      .inr ⟨none, rfl, rfl⟩, (fun _ => .inr (.inl (by intro h; cases h))), .one hs, by simp, ?_⟩
+      .inr ⟨none, rfl, rfl⟩, (fun _ => .inr (.inl (by intro h; cases h))), (fun _ => .inl (Nat.le_refl 1)), .one hs, by simp, ?_⟩
     by_cases hcmp : Fun.compare srt a b = true
     · simp only [hcmp, if_true]
       exact SRel.eval (ρ0 := ρ0) hgt (hct.mono hin) (he.sub fun y hy => by simp [hy]) hr hbT haT
@@ -53,7 +53,7 @@ theorem cont_ifZ {srt : Fun.IfSort} {t e : Fun.Term} {env : Fun.Env}
     (hbT : BoundOn (tfvStmt T []) ρ0) (hbE : BoundOn (tfvStmt E []) ρ0)
     (haT : AgreeOn (tfvStmt T []) ρ0 ρ) (haE : AgreeOn (tfvStmt E []) ρ0 ρ)
     (hl1 : Core.Env.lookup ρ z1 = .ok V) (hv : VRel (GP p) q n v V) :
-    Chunk p q (R p q) true (.ret v (.ifZ srt t e env :: k))
+    Chunk p q (R p q) true true μ (.ret v (.ifZ srt t e env :: k))
       ⟨.ifz (compileSort srt) (.var .prd z1 τ1) T E, ρ, out, n⟩ := by
   cases hv with
   | int a =>
@@ -61,7 +61,7 @@ theorem cont_ifZ {srt : Fun.IfSort} {t e : Fun.Term} {env : Fun.Env}
       (out := out) (n := n) hl1 .prd
     rw [compare_compile] at hs
     refine .inr ⟨0, _, .eval (if Fun.compare srt a 0 then t else e) env k, [], 1, _, .refl _,
-      .inr ⟨none, rfl, rfl⟩, (fun _ => .inr (.inl (by intro h; cases h))), .one hs, by simp, ?_⟩
+      .inr ⟨none, rfl, rfl⟩, (fun _ => .inr (.inl (by intro h; cases h))), (fun _ => .inl (Nat.le_refl 1)), .one hs, by simp, ?_⟩
     by_cases hcmp : Fun.compare srt a 0 = true
     · simp only [hcmp, if_true]
       exact SRel.eval (ρ0 := ρ0) hgt (hct.mono hin) (he.sub fun y hy => by simp [hy]) hr hbT haT
@@ -80,13 +80,13 @@ theorem cont_print {nl : Bool} {next : Fun.Term} {env : Fun.Env}
     (he : EnvRel (GP p) q n (fv next) env ρ0) (hr : CRel (GP p) q n k c ρ0)
     (hb : BoundOn (tfvStmt N []) ρ0) (ha : AgreeOn (tfvStmt N []) ρ0 ρ)
     (hl1 : Core.Env.lookup ρ z1 = .ok V) (hv : VRel (GP p) q n v V) :
-    Chunk p q (R p q) true (.ret v (.print nl next env :: k))
+    Chunk p q (R p q) true true μ (.ret v (.print nl next env :: k))
       ⟨.print nl (.var .prd z1 τ1) N, ρ, out, n⟩ := by
   cases hv with
   | int a =>
     have hs := step_print_var (q := q) (nl := nl) (t1 := τ1) (N := N) (out := out) (n := n) hl1 .prd
     exact .inr ⟨0, _, .eval next env k, [(nl, a)], 1, _, .refl _,
-      .inr ⟨some (nl, a), rfl, rfl⟩, (fun _ => .inr (.inl (by intro h; cases h))), .one hs, rfl,
+      .inr ⟨some (nl, a), rfl, rfl⟩, (fun _ => .inr (.inl (by intro h; cases h))), (fun _ => .inl (Nat.le_refl 1)), .one hs, rfl,
       SRel.eval (ρ0 := ρ0) hg (hcn.mono hin) he hr hb ha⟩
   | con _ => exact .inl ⟨0, _, .stuck (.notInt "print"), .refl _, rfl, fun h => h.elim⟩
   | cont _ => exact .inl ⟨0, _, .stuck (.notInt "print"), .refl _, rfl, fun h => h.elim⟩
@@ -96,7 +96,7 @@ theorem cont_print {nl : Bool} {next : Fun.Term} {env : Fun.Env}
 theorem cont_exit {n : Nat} {ρ : CEnv} {out : Out} {ty : Core.Ty}
     {z1 : Core.Ident} {τ1 : Core.Ty} {v : Fun.Value} {V : CVal}
     (hl1 : Core.Env.lookup ρ z1 = .ok V) (hv : VRel (GP p) q n v V) :
-    Chunk p q (R p q) true (.ret v [.exitF]) ⟨.exit (.var .prd z1 τ1) ty, ρ, out, n⟩ := by
+    Chunk p q (R p q) true true μ (.ret v [.exitF]) ⟨.exit (.var .prd z1 τ1) ty, ρ, out, n⟩ := by
   cases hv with
   | int a =>
     have hs := step_exit_var (q := q) (t1 := τ1) (ty := ty) (out := out) (n := n) hl1 .prd
@@ -109,7 +109,7 @@ theorem cont_exit {n : Nat} {ρ : CEnv} {out : Out} {ty : Core.Ty}
 theorem cont_main {n : Nat} {ρ : CEnv} {out : Out} {ty : Core.Ty}
     {z1 : Core.Ident} {τ1 : Core.Ty} {v : Fun.Value} {V : CVal}
     (hl1 : Core.Env.lookup ρ z1 = .ok V) (hv : VRel (GP p) q n v V) :
-    Chunk p q (R p q) true (.ret v []) ⟨.exit (.var .prd z1 τ1) ty, ρ, out, n⟩ := by
+    Chunk p q (R p q) true true μ (.ret v []) ⟨.exit (.var .prd z1 τ1) ty, ρ, out, n⟩ := by
   cases hv with
   | int a =>
     have hs := step_exit_var (q := q) (t1 := τ1) (ty := ty) (out := out) (n := n) hl1 .prd
@@ -144,13 +144,13 @@ theorem cont_ifL (hcod : CodOK p q)
     (haE : AgreeOn (tfvStmt E []) ρ0 ρ)
     (hl1 : Core.Env.lookup ρ z1 = .ok V) (hz1 : z1.name = sig → z1.id < n)
     (hv : VRel (GP p) q n v V) :
-    Chunk p q (R p q) true (.ret v (.ifL srt b t e env :: k))
+    Chunk p q (R p q) true true μ (.ret v (.ifL srt b t e env :: k))
       ⟨.ifc (compileSort srt) (.var .prd z1 τ1) B T E, ρ, out, n⟩ := by
   cases hv with
   | int a =>
     have f1 : FSteps p (.ret (.int a) (.ifL srt b t e env :: k))
         (.eval b env (.ifR srt a t e env :: k)) [] 1 := .one rfl
-    refine Chunk.prefix f1 (.refl _) rfl (fun _ => Nat.le_refl _) ?_
+    refine Chunk.prefix f1 (.refl _) rfl (fun _ => Nat.le_refl _) (fun h => .inr h) ?_
     have hzne : z1 ≠ Core.sigmaName n := by
       intro e
       have := hz1 (by rw [e]; rfl)
